@@ -455,6 +455,7 @@ func runC02(r *run) {
 	customErrorDevices(r.violate)
 	nilContextWithKeys(r.violate)
 	discardPlusLevelWriter(r.violate)
+	returnedListIsACopy(r.violate)
 	// the same delivery oracles in go-test mode (the error dump after a record is active only there):
 	// the twin binary harness.test, oracle-only
 	if exe := os.Getenv("VERIF_HARNESS"); exe != "" {
